@@ -105,7 +105,15 @@ def check_lexer(ctx, s, as_lines=False):
     if _lex is None:
         _lex = probe.original(X.lex)
     ntok = 0
-    for triple, pat in ((False, X.PENMAN_RE), (True, X.TRIPLE_RE)):
+    # the two pattern objects are private names: looked up defensively (DESIGN 2.7); without them
+    # the graph pattern is still reachable as lex()'s default and the triple pattern through
+    # parse_triples (C07)
+    pats = [(False, getattr(X, 'PENMAN_RE', None))]
+    if getattr(X, 'TRIPLE_RE', None) is not None:
+        pats.append((True, X.TRIPLE_RE))
+    else:
+        ctx.count('triple_pattern_unavailable')
+    for triple, pat in pats:
         inputs = [('str', s)]
         if as_lines:
             lines = R.split_lines(s)
@@ -130,8 +138,8 @@ def check_lexer(ctx, s, as_lines=False):
                 ntok = len(toks)
     # default pattern argument == graph pattern
     ok, toks = ctx.call(lambda: [(t.type, t.text, t.lineno, t.offset) for t in _lex(s)], clause='lex')
-    ok2, toks2 = ctx.call(lambda: [(t.type, t.text, t.lineno, t.offset) for t in _lex(s, pattern=X.PENMAN_RE)],
-                          clause='lex')
+    ok2, toks2 = ctx.call(lambda: [(t.type, t.text, t.lineno, t.offset)
+                                   for t in _lex(s, pattern=getattr(X, 'PENMAN_RE', None))], clause='lex')
     if ok and ok2 and toks != toks2:
         ctx.fail('lex:default-pattern', detail={'input': s[:300]}, payload=['str', {'s': s}])
     return ntok
